@@ -415,3 +415,106 @@ Proof. exact @tiea_hist_bin_centers. Qed.
 Theorem C08_model_is_source_hist_bin_centers_carriers :
   ofZ RO 2 = two RO /\ ofZ QO 2 = two QO /\ forall t : libm_table, ofZ (FO t) 2 = two (FO t).
 Proof. exact (conj ofZ_two_RO (conj ofZ_two_QO ofZ_two_FO)). Qed.
+
+(* ======================================================================================================== *)
+(** ** extension (one contiguous block): binary64 rounding error of the two means, sign of the variance.
+    Carrier [FO tbl] (primitive binary64), real value [B2Rf], [finite] = neither infinite nor NaN (Flocq).
+    Proofs in Proofs/C08_float.v; u = 2^-53.  Which routine uses what: [mean] = unrolled [sum] / n (C04's sum),
+    [welford_mean], [var], [sample_var], [std], [sample_std] read the state of the Welford loop
+    ([C08_model_is_source_welford_update]: m_k = m_{k-1} + (x_k - m_{k-1}) / k, M2 += (x_k - m_{k-1}) (x_k - m_k)). *)
+From Compute Require Import Proofs.C04ErrF Proofs.C08_float Proofs.C08_floatEx.
+Local Open Scope R_scope.
+
+(** "no quotient underflows": along the run of the model, every exact quotient (x_k - m_{k-1}) / k formed after the
+    first step (which divides by 1) is zero or at least 2^-1022 in magnitude *)
+Theorem C08_welford_no_underflow_unfold :
+  forall (tbl : libm_table) (a : nat * PrimFloat.float * PrimFloat.float) (x : PrimFloat.float) (l : list PrimFloat.float),
+    (welford_no_underflow tbl a [] <-> True) /\
+    (welford_no_underflow tbl a (x :: l) <->
+     (fst (fst a) = 0%nat
+      \/ (B2Rf (sub (FO tbl) x (snd (fst a))) / INR (S (fst (fst a))) = 0
+          \/ / 2 ^ 1022 <= Rabs (B2Rf (sub (FO tbl) x (snd (fst a))) / INR (S (fst (fst a))))))
+     /\ welford_no_underflow tbl (welford_update (FO tbl) a x) l).
+Proof. intros tbl a x l. split; apply iff_refl. Qed.
+
+(** Welford's running mean: for EVERY non-empty slice of fewer than 2^53 doubles whose computed mean is finite
+    (this alone forces every datum and every intermediate mean to be finite) and where no quotient underflows,
+    with X any bound on the magnitudes of the data (e.g. their maximum),
+        | welford_mean x - (Sigma x_i) / n |  <=  ((1 + 2^-53)^(3 (n-1)) - 1) * X      (about 3 (n-1) 2^-53 X). *)
+Theorem C08_welford_mean_error_binary64 :
+  forall (tbl : libm_table) (data : list PrimFloat.float) (X : R),
+    data <> [] -> (Z.of_nat (length data) < 2 ^ 53)%Z ->
+    finite (welford_mean (FO tbl) data) ->
+    welford_no_underflow tbl (0%nat, 0%float, 0%float) data ->
+    Forall (fun a => Rabs (B2Rf a) <= X) data ->
+    Forall finite data /\
+    Rabs (B2Rf (welford_mean (FO tbl) data) - Rsum (map B2Rf data) / INR (length data))
+    <= ((1 + / 2 ^ 53) ^ (3 * (length data - 1)) - 1) * X.
+Proof. exact welford_mean_F_error. Qed.
+
+(** ... and with NO hypothesis on the quotients: the subnormal range costs 2^-1022 next to the data bound *)
+Theorem C08_welford_mean_error_binary64_abs :
+  forall (tbl : libm_table) (data : list PrimFloat.float) (X : R),
+    data <> [] -> (Z.of_nat (length data) < 2 ^ 53)%Z ->
+    finite (welford_mean (FO tbl) data) ->
+    Forall (fun a => Rabs (B2Rf a) <= X) data ->
+    Forall finite data /\
+    Rabs (B2Rf (welford_mean (FO tbl) data) - Rsum (map B2Rf data) / INR (length data))
+    <= ((1 + / 2 ^ 53) ^ (3 * (length data - 1)) - 1) * (X + / 2 ^ 1022).
+Proof. exact welford_mean_F_error_abs. Qed.
+
+(** [mean] = the 8-way unrolled [sum] of C04 followed by one division: C04's bound plus one rounding *)
+Theorem C08_mean_error_binary64 :
+  forall (tbl : libm_table) (data : list PrimFloat.float),
+    data <> [] -> (Z.of_nat (length data) < 2 ^ 53)%Z ->
+    finite (mean (FO tbl) data) ->
+    (B2Rf (sum (FO tbl) data) / INR (length data) = 0
+     \/ / 2 ^ 1022 <= Rabs (B2Rf (sum (FO tbl) data) / INR (length data))) ->
+    Rabs (B2Rf (mean (FO tbl) data) - Rsum (map B2Rf data) / INR (length data))
+    <= ((1 + / 2 ^ 53) ^ S (length data) - 1) * (Rsum (map Rabs (map B2Rf data)) / INR (length data)).
+Proof. exact mean_F_error. Qed.
+Theorem C08_mean_error_binary64_abs :
+  forall (tbl : libm_table) (data : list PrimFloat.float),
+    data <> [] -> (Z.of_nat (length data) < 2 ^ 53)%Z ->
+    finite (mean (FO tbl) data) ->
+    Rabs (B2Rf (mean (FO tbl) data) - Rsum (map B2Rf data) / INR (length data))
+    <= ((1 + / 2 ^ 53) ^ S (length data) - 1) * (Rsum (map Rabs (map B2Rf data)) / INR (length data)) + / 2 ^ 1075.
+Proof. exact mean_F_error_abs. Qed.
+
+(** the hypotheses are satisfiable on a non-trivial instance (mixed signs and magnitudes, an inexact literal) *)
+Theorem C08_example_mean_error_binary64 :
+  let data := [1; 2; 0x1.999999999999ap-4; -3; 0x1p+40; 5]%float in
+  data <> [] /\ (Z.of_nat (length data) < 2 ^ 53)%Z /\
+  finite (welford_mean FO0 data) /\ finite (mean FO0 data) /\ finite (var FO0 data) /\
+  welford_no_underflow empty_tbl (0%nat, 0%float, 0%float) data /\
+  (B2Rf (sum FO0 data) / INR (length data) = 0
+   \/ / 2 ^ 1022 <= Rabs (B2Rf (sum FO0 data) / INR (length data))) /\
+  Forall (fun a => Rabs (B2Rf a) <= 2 ^ 40) data.
+Proof. exact welford_mean_example. Qed.
+
+(** the M2 recurrence never goes negative on binary64 as long as nothing overflows: a FINITE computed variance
+    (this alone forces every datum, mean, difference and product of the run to be finite) is >= 0.  No underflow
+    condition: the new mean never overshoots the datum, so the two factors of each update agree in sign. *)
+Theorem C08_var_nonneg_binary64 :
+  forall (tbl : libm_table) (data : list PrimFloat.float),
+    data <> [] -> (Z.of_nat (length data) < 2 ^ 53)%Z ->
+    finite (var (FO tbl) data) ->
+    Forall finite data /\ 0 <= B2Rf (var (FO tbl) data).
+Proof. exact var_F_nonneg. Qed.
+Theorem C08_sample_var_nonneg_binary64 :
+  forall (tbl : libm_table) (data : list PrimFloat.float),
+    (2 <= length data)%nat -> (Z.of_nat (length data) < 2 ^ 53)%Z ->
+    finite (sample_var (FO tbl) data) ->
+    Forall finite data /\ 0 <= B2Rf (sample_var (FO tbl) data).
+Proof. exact sample_var_F_nonneg. Qed.
+
+(** ... and the finiteness hypothesis cannot be dropped: FINITE data whose spread x - mean overflows get the
+    variance MINUS infinity (x2 - m1 = +inf, new mean +inf, x2 - new mean = -inf, M2 = (+inf)(-inf)), and [std] NaN.
+    The crate returns the same values on [-1.7e308, 1.7e308] (finding, not repaired). *)
+Theorem C08_var_negative_on_overflow_refuted :
+  let data := [(-0x1.e42d130773b76p+1023)%float; 0x1.e42d130773b76p+1023%float] in
+  Forall finite data /\
+  var FO0 data = neg_infinity /\ sample_var FO0 data = neg_infinity /\
+  PrimFloat.ltb (var FO0 data) 0 = true /\ is_nan FO0 (std FO0 data) = true.
+Proof. exact var_negative_on_overflow. Qed.
+Local Close Scope R_scope.
